@@ -13,8 +13,9 @@ mkdir -p bin work evidence replays
 # every invocation links its own binaries (bin/run.<pid>/): invocations may run in parallel, with
 # different overlays, without overwriting a binary that another one is executing
 BINDIR="$VERIF_DIR/bin/run.$$"
-mkdir -p "$BINDIR"
-trap 'rm -rf "$BINDIR"' EXIT
+export VERIF_WORKDIR="$VERIF_DIR/work/run.$$"
+mkdir -p "$BINDIR" "$VERIF_WORKDIR"
+trap 'rm -rf "$BINDIR" "$VERIF_WORKDIR"' EXIT
 cp -f /repo/go.sum mc/go.sum 2>/dev/null || true
 OV=()
 if [ -n "${VERIF_OVERLAY:-}" ]; then OV=(-overlay "$VERIF_OVERLAY"); fi
@@ -38,7 +39,7 @@ case "${1:-}" in
     if [ -z "$cover" ]; then if [ "$tier" = thorough ]; then cover=1; else cover=0; fi; fi
     if [ "$cover" = 1 ]; then
       build_cover
-      export VERIF_COVERDIR="$VERIF_DIR/work/cov.$prop"
+      export VERIF_COVERDIR="$VERIF_WORKDIR/cov.$prop"
       rm -rf "$VERIF_COVERDIR"; mkdir -p "$VERIF_COVERDIR"
     fi
     "$BINDIR/vmc" check "$prop" "$tier"; rc=$?
